@@ -3,8 +3,8 @@ import jobs_c06 as _jobs_c06
 PROPS["C06"] = dict(
     functions=["revm::JournaledState::journal_revert (crates/revm/src/journaled_state.rs): ONE iteration of its loop over the entries (back edges cut), all ten entry kinds",
                "revm::JournaledState::{checkpoint, checkpoint_commit, checkpoint_revert (+ its per-vector closure)}: every path",
-               "revm::JournaledState::{touch_account, inc_nonce, set_code_with_hash, sstore, tstore}: every path (forward journalling); transfer, create_account_checkpoint, "
-               "selfdestruct value moves and load_account / sload warming are decided under C08, C21, C34"],
+               "revm::JournaledState::{touch_account, inc_nonce, set_code_with_hash, sstore, tstore}: every path (forward journalling); the two fallible operations transfer and "
+               "create_account_checkpoint (nothing stays changed when they fail: the jobs of C08 / C21, run here too); selfdestruct value moves and load_account / sload warming are decided under C08, C34"],
     bounds="journal_revert: one entry of each of the 10 kinds x (was_destroyed, address != target, Spurious Dragon, address == the RIPEMD precompile, recorded transient value zero?) from an "
            "arbitrary state - an inductive step over the entry list, which is walked in reverse (checked); checkpoint functions: depth and lengths symbolic; forward functions: every path x "
            "(already touched?, nonce at maximum?, new value == present value?, previous transient value present / different?)",
@@ -18,7 +18,10 @@ PROPS["C06"] = dict(
                  "z3 4.8.12 and cvc5 1.0 agree; a sat answer is replayed by the native round trips `journal_roundtrip` (operation, checkpoint_revert, whole-state equality) before it is reported"],
     jobs=[dict(name="e3::journal_revert_per_entry", fn=_jobs_c06.run_journal_revert),
           dict(name="e3::checkpoint_bookkeeping", fn=_jobs_c06.run_checkpoint_bookkeeping),
-          dict(name="e3::forward_journalling", fn=_jobs_c06.run_forward_journalling)],
+          dict(name="e3::forward_journalling", fn=_jobs_c06.run_forward_journalling),
+          # the two fallible operations the property names: nothing is left changed when they fail (shared with C08 / C21)
+          dict(name="e3::transfer_conservation", fn=__import__("jobs_e3").run_transfer_conservation),
+          dict(name="e3::create_collision_guard", fn=__import__("jobs_c21").run_create_guard)],
 )
 CLAIMS["C06"] = dict(
     text="The journal is decided link by link from MIR (provenance flow, z3+cvc5 over every path). Forward: touching an account, bumping a nonce, setting code, writing a storage slot and writing "
